@@ -122,15 +122,15 @@ Params(name) ==
                                       {"none"}, {FALSE}, {0, 1}, {1, 2})
       [] name = "t_text"     -> Suite("trans", TextsFull, {}, {"x"}, HeadersText, 4, 0, CtxNone,
                                       {"none", "trimmed"}, {FALSE}, {0}, {1})
-      [] name = "t_text2"    -> Suite("trans", TextsMid, TextsTiny, {"x", "num"}, Headers1, 3, 1, CtxBoth,
+      [] name = "t_text2"    -> Suite("trans", TextsMid, {}, {"x", "num"}, Headers1, 3, 0, CtxBoth,
                                       {"none", "trimmed"}, {FALSE}, {0}, {1, 3})
-      [] name = "t_plural"   -> Suite("trans", TextsAP, TextsAP, {"x", "num"}, Headers2, 3, 2, CtxNone,
+      [] name = "t_plural"   -> Suite("trans", TextsAP, TextsAP, {"x", "num"}, Headers2, 2, 2, CtxNone,
                                       {"none"}, {FALSE}, {0}, {1, 2, 3})
       [] name = "t_trim"     -> Suite("trans", TextsWs, {}, {"x"}, HeadersX, 5, 0, CtxNone,
                                       {"none", "trimmed", "notrimmed"}, BOOLEAN, {0}, {1})
-      [] name = "t_trimpl"   -> Suite("trans", TextsWs, TextsWsP, {"x"}, HeadersX, 3, 3, CtxNone,
-                                      {"none", "trimmed"}, BOOLEAN, {0}, {1, 2})
-      [] name = "t_context"  -> Suite("trans", TextsMid, TextsAP, {"x", "num"}, Headers2, 2, 2, CtxBoth,
+      [] name = "t_trimpl"   -> Suite("trans", TextsWs, TextsWsP, {"x"}, HeadersX, 2, 3, CtxNone,
+                                      {"none", "trimmed"}, {FALSE}, {0}, {1, 2})
+      [] name = "t_context"  -> Suite("trans", TextsAP, TextsTiny, {"x"}, Headers1, 2, 1, CtxBoth,
                                       {"none", "trimmed"}, {FALSE}, {0, 2}, {1, 2, 3})
       [] name = "t_calls"    -> Suite("calls", TextsFull, TextsTiny, {}, Headers0, 0, 0, CtxNone,
                                       {"none"}, {FALSE}, {0, 1}, {1, 2, 3})
